@@ -5,15 +5,14 @@ From Tickit Require Import Csi VT TermPenDefs TermPenSpec TermPenProofs XtermDef
 Import ListNotations.
 Local Open Scope Z_scope.
 
-(* a call is the driver request it stands for, unless it is printn with length 0 *)
+(* a call is the driver request it stands for *)
 Lemma api_step_req : forall t a q, req_of_api a = Some q -> api_args_okb a = true ->
-  printn_trigger a = false ->
   api_step t a = match drv_req t q with
                  | Some (t', ret, ts) => Some (t', ts, result_of a ret)
                  | None => None
                  end.
 Proof.
-  intros t a q Hq Hargs Htr.
+  intros t a q Hq Hargs.
   destruct a; cbn [req_of_api] in Hq; inversion Hq; subst; clear Hq; cbn [api_step drv_req result_of];
     try reflexivity.
   - (* print: strlen *)
@@ -22,12 +21,10 @@ Proof.
     destruct ((0 <? Z.of_nat (length str)) && (Z.of_nat (length str) <=? Z.of_nat (length str))) eqn:E1; [|lia].
     rewrite Nat2Z.id, firstn_all. reflexivity.
   - (* printn *)
-    cbn [api_args_okb] in Hargs. cbn [printn_trigger] in Htr.
-    unfold drv_print, write_str_bytes, xt_print.
+    cbn [api_args_okb] in Hargs.
     destruct (len =? 0) eqn:E0.
-    + assert (len = 0) by lia. subst len. cbn [andb] in Htr.
-      destruct str as [|b str]; [reflexivity|discriminate].
-    + destruct ((0 <? len) && (len <=? Z.of_nat (length str))) eqn:E1; [reflexivity|lia].
+    + assert (len = 0) by lia. subst len. cbn [Z.to_nat firstn xt_print chars map]. reflexivity.
+    + unfold drv_print, write_str_bytes, xt_print. rewrite E0. destruct ((0 <? len) && (len <=? Z.of_nat (length str))) eqn:E1; [reflexivity|lia].
   - (* scrollrect *)
     destruct (xt_scrollrect (cap_slrm (x_caps (t_drv t))) (t_cols t) r downward rightward) as [ok ts].
     reflexivity.
@@ -55,31 +52,33 @@ Proof.
   induction l as [|a l IH]; intros t v Hok Hs Hpens; [exact I|].
   inversion Hpens as [|a' l' Ha Hl]; subst.
   cbn [api_seq_ok]. destruct (req_of_api a) as [q|] eqn:Eq.
-  - intros Hr Hargs Hex. unfold api_excl in Hex. rewrite Eq in Hex.
-    apply orb_false_iff in Hex as [Htr Hrv].
+  - intros Hr Hargs Hrv. unfold api_excl in Hrv. rewrite Eq in Hrv.
     destruct (req_ok t v q Hok Hs (api_pen_req a q Eq Ha) Hr Hrv) as (t' & ret & ts & H1 & H2 & H3 & H4).
     exists t', ret, ts. split.
-    + rewrite (api_step_req t a q Eq Hargs Htr), H1. reflexivity.
+    + rewrite (api_step_req t a q Eq Hargs), H1. reflexivity.
     + split; [exact H2|]. split; [exact H3|]. apply IH; assumption.
   - destruct (quiet_api a) eqn:Equiet; [|exact I].
     destruct (api_quiet_step t a Equiet) as (res & Hres). exists res. split; [exact Hres|].
     apply IH; assumption.
 Qed.
 
-(* the recorded deviation: printn(str, 0) of a non-empty string prints the whole string *)
+(* the PINNED tickit_term_printn (length forwarded unchanged): printn(str, 0) of a non-empty string wrote
+   the whole string; repaired by fix C09-printn-zero-length *)
 Lemma printn_zero_refuted :
   let v := vt_run xt_start (vt_init 2 5) in
-  let t := mkTerm xdrv_new true empty_pen 2 5 in
-  vt_ok v /\ SInv t v /\ in_range (RPrint []) v /\ printn_trigger (APrintn [65; 66] 0) = true /\
-  exists ts, api_step t (APrintn [65; 66] 0) = Some (t, ts, None) /\
+  vt_ok v /\ in_range (RPrint []) v /\ printn_trigger (APrintn [65; 66] 0) = true /\
+  exists ts, printn_pinned [65; 66] 0 = Some ts /\
              ~ effect_ok (RPrint []) true (match ts with [] => true | _ => false end) v (vt_run ts v).
 Proof.
   cbv zeta. destruct (start_state_ok 2 5 xdrv_new ltac:(lia) ltac:(lia)) as [Hok Hs].
-  split; [exact Hok|]. split; [exact Hs|].
-  split; [vm_compute; reflexivity|]. split; [reflexivity|].
+  split; [exact Hok|]. split; [vm_compute; reflexivity|]. split; [reflexivity|].
   eexists. split; [reflexivity|].
   intros (_ & H2 & _). vm_compute in H2. discriminate.
 Qed.
+
+(* ... and the repaired one writes nothing *)
+Lemma printn_zero_fixed : forall t str, api_step t (APrintn str 0) = Some (t, [], None).
+Proof. reflexivity. Qed.
 
 (* C10 at the API: set-pen / change-pen are the two layers of TermPenDefs *)
 Lemma api_setpen_is : forall t p,
